@@ -182,6 +182,8 @@ class SubRun:
         self.calls = {}       # (id, end) -> [[write|close, ok|err]] in call order
         self.closes_sent = {}  # (id, end) -> CLOSE records the Manager was asked to send
         self.scids = {"L": [], "F": []}
+        self.eager = {}       # id -> application calls its opener makes from inside connectionMade()
+        self.skip = []        # ... which are then skipped when the behaviour reaches them
         for sname, side in self.w.sides.items():
             def send_close(scid, sname=sname, orig=side.m.send_close):
                 e = "o" if ("L" if scid % 2 == 1 else "F") == sname else "a"
@@ -204,27 +206,24 @@ class SubRun:
         a, x, y = la
         self.schedule.append(list(la))
         if a == "AppOpen":
+            eager = self.eager.pop(y, [])
+
+            def made(proto, y=y, eager=eager):
+                self.openers[y] = proto
+                for (a2, e2, sid2) in eager:
+                    self._app(a2, e2, sid2)
+            w.on_made = made if eager else None
             p = w.open(x, self.spell(self._name_of_id.get(y, "a")), half=self.half)
+            w.on_made = None
             self.openers[y] = p
             self.scids[x].append(getattr(getattr(p, "transport", None), "_scid", None))
         elif a == "AppListen":
             w.listen(x, self.spell(self._listen_name), half=self.half)
         elif a in ("AppWrite", "AppClose"):
-            e, sid = x, y
-            p = self.end_proto(sid, e)
-            try:
-                if a == "AppWrite":
-                    k = self._writes.get((sid, e), 0)
-                    self._writes[(sid, e)] = k + 1
-                    p.transport.write(("w%d%s%d" % (sid, e, k)).encode())
-                elif self.half:
-                    p.transport.loseWriteConnection()
-                else:
-                    p.transport.loseConnection()
-                self.calls.setdefault((sid, e), []).append(["write" if a == "AppWrite" else "close", "ok"])
-            except Exception as ex:
-                self.errors.setdefault((sid, e), []).append(type(ex).__name__)
-                self.calls.setdefault((sid, e), []).append(["write" if a == "AppWrite" else "close", "err"])
+            if self.skip and self.skip[0] == (a, x, y):
+                self.skip.pop(0)        # already done from inside connectionMade()
+            else:
+                self._app(a, x, y)
         elif a == "Deliver":
             # one sequenced record towards side x (acks travel along)
             frm = "F" if x == "L" else "L"
@@ -243,6 +242,22 @@ class SubRun:
                 w.deliver(x)
         w.settle()
         self.max_held = max(self.max_held, self._held())
+
+    def _app(self, a, e, sid):
+        p = self.end_proto(sid, e)
+        try:
+            if a == "AppWrite":
+                k = self._writes.get((sid, e), 0)
+                self._writes[(sid, e)] = k + 1
+                p.transport.write(("w%d%s%d" % (sid, e, k)).encode())
+            elif self.half:
+                p.transport.loseWriteConnection()
+            else:
+                p.transport.loseConnection()
+            self.calls.setdefault((sid, e), []).append(["write" if a == "AppWrite" else "close", "ok"])
+        except Exception as ex:
+            self.errors.setdefault((sid, e), []).append(type(ex).__name__)
+            self.calls.setdefault((sid, e), []).append(["write" if a == "AppWrite" else "close", "err"])
 
     max_held = 0
 
@@ -274,6 +289,16 @@ def replay_sub(tid, states, names_by_step, expected, half):
         la = st["last"]
         if la[0] == "AppOpen":
             run._name_of_id[la[2]] = st["name"][la[2] - 1]
+            if tid % 2 == 1:
+                # every other run: what the opener does next on this subchannel, it does from inside connectionMade()
+                j = i + 1
+                ops = []
+                while j < len(states) and states[j]["last"][0] in ("AppWrite", "AppClose") and list(states[j]["last"][1:]) == ["o", la[2]]:
+                    ops.append((states[j]["last"][0], "o", la[2]))
+                    j += 1
+                if ops:
+                    run.eager[la[2]] = ops
+                    run.skip = [tuple(o) for o in ops]
         if la[0] == "AppListen":
             prev = states[i - 1]["listening"][la[1]]
             new = set(st["listening"][la[1]]) - set(prev)
@@ -283,7 +308,9 @@ def replay_sub(tid, states, names_by_step, expected, half):
         except Exception as e:
             drift = drift or {"step": i, "action": la, "diff": ["cannot apply: %r" % (e,)]}
             break
-        if drift is None:
+        if drift is None and not run.skip:
+            # (while the opener is still inside connectionMade() - calls of the following steps done early - the
+            # real state is ahead of the behaviour by design: compared again once those steps have passed)
             d = []
             for idx, pair in enumerate(st["ends"], start=1):
                 for e in ("o", "a"):
